@@ -498,6 +498,10 @@ func Thorough() bool { return os.Getenv("ZZVF_TIER") == "thorough" }
 // executor-only sections natively.
 func Native() bool { return true }
 
+// StubActive guards the native stub rewrites: false for a harness that carries the
+// `nostub` directive (it exercises the real function).
+func StubActive() bool { return os.Getenv("ZZVF_NOSTUB") == "" }
+
 // ---------- Fill / FillCount / AssertCarried (native twins) ----------
 
 func fillablePkg(p string) bool {
